@@ -167,6 +167,8 @@ structure Namespace where
   types : List TypeDef := []
   aliases : List AliasDef := []
   routes : List RouteDef := []
+  /-- some route attribute value of the namespace is a `datetime.datetime` (a Timestamp attribute) -/
+  tsRouteAttr : Bool := false
   deriving Repr, Inhabited
 
 structure Api where
@@ -539,10 +541,10 @@ def aliasTargetName (N : Naming) (ns : String) : StoneTy → TExpr
   | .user tns name => if tns == ns then .name (fmtClass N name) else .attr (.name (fmtNamespace tns)) (fmtClass N name)
   | _ => .none      -- unreachable: the caller checked that the unwrapped target is user defined
 
-/-- `_generate_alias_definition` (stub): the validator is named after `fmt_class(alias.name)` -/
+/-- `_generate_alias_definition` (stub): validator and class alias are named after `fmt_class(alias.name)` -/
 def stubAlias (N : Naming) (ns : String) (a : AliasDef) : List ModItem :=
   .validator (fmtClass N a.name ++ "_validator") (tBV "Validator") ::
-    (if isUserTy (unwrapAliases a.ty) then [.aliasName a.name (aliasTargetName N ns a.ty)] else [])
+    (if isUserTy (unwrapAliases a.ty) then [.aliasName (fmtClass N a.name) (aliasTargetName N ns a.ty)] else [])
 
 /-- `check_route_name_conflict`: the first route whose generated name was already taken -/
 def routeConflict (N : Naming) : List String → List RouteDef → Option String
@@ -635,11 +637,11 @@ def rtAnnoType (N : Naming) (a : AnnoTypeDef) : List ModItem :=
           members := a.params.map fun p => rtMember .property (fmtFunc N p.name true) }]
 
 /-- `_generate_alias_definition` (runtime): the validator is named after `fmt_class(alias.name)`
-(the name its users refer to; before the repair of D20 it was `alias.name` itself), the class alias
-is bound under the raw `alias.name` -/
+(the name its users refer to; before the repair of D20 it was `alias.name` itself), and so is the
+class alias of an alias of a struct or union (since the repair of D39, in both backends) -/
 def rtAlias (N : Naming) (ns : String) (a : AliasDef) : List ModItem :=
   .validator (fmtClass N a.name ++ "_validator") .none ::
-    (if isUserTy (unwrapAliases a.ty) then [.aliasName a.name (aliasTargetName N ns a.ty)] else [])
+    (if isUserTy (unwrapAliases a.ty) then [.aliasName (fmtClass N a.name) (aliasTargetName N ns a.ty)] else [])
 
 def rtRoutes (N : Naming) (ns : Namespace) : List ModItem :=
   (ns.routes.map fun r => .route (fmtFunc N r.name false r.version) .none) ++ [.other "ROUTES"]
@@ -650,6 +652,8 @@ def rtNs (N : Naming) (api : Api) (ns : Namespace) : Except String ModDecl :=
   | none =>
     .ok { file := fmtNamespace ns.name ++ ".py",
           imports := [.future "unicode_literals", .lib "stone_base" "bb", .lib "stone_validators" "bv"] ++
+            -- Timestamp route attributes are printed as `datetime.datetime(...)`
+            (if ns.tsRouteAttr then [.adhoc "import datetime"] else []) ++
             ns.imports.map (fun n => Import.ns (fmtNamespace n)),
           items := ns.annoTypes.flatMap (rtAnnoType N) ++ ns.types.flatMap (rtType N api ns.name) ++
                    ns.aliases.flatMap (rtAlias N ns.name) ++ rtRoutes N ns }
@@ -674,11 +678,11 @@ def judgedNames (m : ModDecl) : List (JKind × String) := m.items.flatMap judged
 
 /-- The judged names written directly from the API description (the statement's enumeration): per
 struct / union its class and `<Class>_validator`, per alias a validator (named by `aliasValidator`)
-and, when the alias denotes a struct or union, the alias name itself, per route its object. -/
+and, when the alias denotes a struct or union, the class-formatted alias name, per route its object. -/
 def judgedSpec (N : Naming) (ns : Namespace) (aliasValidator : String → String) : List (JKind × String) :=
   ns.types.flatMap (fun t => [(JKind.cls, fmtClass N t.name), (JKind.validator, fmtClass N t.name ++ "_validator")]) ++
   ns.aliases.flatMap (fun a => (JKind.validator, aliasValidator a.name) ::
-    (if isUserTy (unwrapAliases a.ty) then [(JKind.aliasName, a.name)] else [])) ++
+    (if isUserTy (unwrapAliases a.ty) then [(JKind.aliasName, fmtClass N a.name)] else [])) ++
   ns.routes.map (fun r => (JKind.route, fmtFunc N r.name false r.version))
 
 /-- a public member = field attribute, void-tag attribute, `is_*`, `get_*`, tag constructor -/
